@@ -12,4 +12,9 @@
 /* a walking pointer stays inside [base, base+n] */
 #define VWALK(p, base, n) (__CPROVER_same_object((p), (base)) && __CPROVER_POINTER_OFFSET(p) <= (n))
 
+/* ghost: the character under the scanner at a loop head (read once, so that invariants can speak
+ * about its class without re-reading memory: every memory read in an invariant is instantiated three
+ * times by the loop-contract transformation and multiplies the size of the array encoding) */
+char vg_sp_c;
+
 #endif
